@@ -102,8 +102,10 @@ def index_case(draw, mode):
             n_arrays += 1
         elif kind == 'mask':
             # a mask of rank 1 or 2 consumes 1 or 2 consecutive dims
+            # (both dims of a rank-2 mask must lie on the same side of the ellipsis)
+            same_side = (d + 1 < p) or (d >= rank - q)
             two = (
-                i + 1 < len(dims) and dims[i + 1] == d + 1 and draw(st.booleans())
+                i + 1 < len(dims) and dims[i + 1] == d + 1 and same_side and draw(st.booleans())
             )
             mshape = (n, shape[d + 1]) if two else (n,)
             cnt = math.prod(mshape)
